@@ -379,6 +379,43 @@ fn s_clone<T: MaybeDynSized<Metadata = usize> + ?Sized>(t: &T) -> String {
     format!("orig {} clone {}", s_img(t), s_img(&*c))
 }
 
+/// clone_dyn of the first tag of every dynamically sized kind of a loaded boot information (foreign padding)
+fn run_cloneparsed(ctx: &mut Ctx, a: &[Arg]) {
+    let g = crate::Guarded::new(a[0].b(), 0, ctx.place_end);
+    let l = guard(|| unsafe { multiboot2::BootInformation::load(g.ptr.cast::<multiboot2::BootInformationHeader>()) });
+    let bi = match l {
+        Ok(Ok(bi)) => bi,
+        _ => {
+            ctx.ln("clone", "noload");
+            return;
+        }
+    };
+    macro_rules! ck {
+        ($label:expr, $T:ty) => {
+            match guard(|| bi.get_tag::<$T>()) {
+                Ok(Some(t)) => ctx.ln(
+                    "clone",
+                    match guard(|| s_clone(t)) {
+                        Ok(s) => format!("{} VAL {}", $label, s),
+                        Err(()) => format!("{} PANIC", $label),
+                    },
+                ),
+                Ok(None) => ctx.ln("clone", format!("{} none", $label)),
+                Err(()) => ctx.ln("clone", format!("{} PANIC", $label)),
+            }
+        };
+    }
+    ck!(1, multiboot2::CommandLineTag);
+    ck!(2, multiboot2::BootLoaderNameTag);
+    ck!(3, multiboot2::ModuleTag);
+    ck!(6, multiboot2::MemoryMapTag);
+    ck!(8, multiboot2::FramebufferTag);
+    ck!(9, multiboot2::ElfSectionsTag);
+    ck!(13, multiboot2::SmbiosTag);
+    ck!(16, multiboot2::NetworkTag);
+    ck!(17, multiboot2::EFIMemoryMapTag);
+}
+
 fn run_clone(ctx: &mut Ctx, a: &[Arg]) {
     let id = a[0].n();
     precheck(id, &a[1..]);
@@ -779,6 +816,7 @@ pub fn run(ctx: &mut Ctx, dom: &str, a: &[Arg]) {
         "hbuild" => run_hbuild(ctx, a),
         "newboxed" => run_newboxed(ctx, a),
         "clone" => run_clone(ctx, a),
+        "cloneparsed" => run_cloneparsed(ctx, a),
         _ => unreachable!(),
     }
 }
